@@ -232,12 +232,21 @@ class Threadless(ABC, Generic[T]):
         unfinished_work_ids = set()
         for task in self.unfinished:
             unfinished_work_ids.add(task._work_id)   # type: ignore
-        for work_id in self.works:
+        for work_id in list(self.works):
             # We don't want to invoke work objects which haven't
             # yet finished their previous task
             if work_id in unfinished_work_ids:
                 continue
-            await self._update_work_events(work_id)
+            # A misbehaving work must only bring itself down,
+            # not the loop shared with other works.
+            try:
+                await self._update_work_events(work_id)
+            except Exception as exc:
+                logger.exception(
+                    'Exception when updating events for work#{0}'.format(work_id),
+                    exc_info=exc,
+                )
+                self._cleanup(work_id)
         await self._update_conn_pool_events()
 
     async def _selected_events(self) -> Tuple[
@@ -313,13 +322,28 @@ class Threadless(ABC, Generic[T]):
                         fileno, work_id,
                     ),
                 )
-                self.selector.unregister(fileno)
+                try:
+                    self.selector.unregister(fileno)
+                except (KeyError, ValueError, OSError) as exc:
+                    logger.debug(
+                        'fd#{0} for work#{1} was already gone'.format(
+                            fileno, work_id,
+                        ),
+                        exc_info=exc,
+                    )
             self.registered_events_by_work_ids[work_id].clear()
             del self.registered_events_by_work_ids[work_id]
-        self.works[work_id].shutdown()
-        del self.works[work_id]
-        if self.work_queue_fileno() is not None:
-            os.close(work_id)
+        try:
+            self.works[work_id].shutdown()
+        except Exception as exc:
+            logger.exception(
+                'Exception when shutting down work#{0}'.format(work_id),
+                exc_info=exc,
+            )
+        finally:
+            del self.works[work_id]
+            if self.work_queue_fileno() is not None:
+                os.close(work_id)
 
     def _create_tasks(
             self,
